@@ -310,6 +310,13 @@ def d4_index(chk, F, pid="C03", only_regions=None):
         key = f"{region}|{kind}"
         e = table.get((region, kind))
         where = ss[0]["where"]
+        if e is None and kind in ("bounds", "index:vec"):
+            # `v[i]` on a Vec is an Index::index call, the same access on a borrowed slice is a bounds-checked place: a reviewed
+            # access keeps its review when the container is passed as `&[T]` instead of `&Vec<T>` (and vice versa)
+            alt = "index:vec" if kind == "bounds" else "bounds"
+            ea = table.get((region, alt))
+            if ea is not None and len(ss) + len(groups.get((region, alt), [])) <= ea["count"]:
+                e = ea
         if e is None:
             chk.fail(rule, key, where, f"unreviewed {kind} indexing in {region} ({len(ss)} site(s): {', '.join(x['where'] for x in ss)}): "
                      "an out-of-range index or a non-boundary string slice panics")
@@ -644,13 +651,13 @@ def d3_progress(chk, F: Facts, pid="C03", only_regions=None):
                 chk.ok(rule, lkey, f"{where}: ITER — every cycle passes through next() of a finite std iterator "
                        f"({sorted({norm(t)[:60] for _, c, t in nc if c == 'finite'})[0]})")
                 continue
-            row = rows.get(k)
+            row = rows.get(k) or rows.get(region)      # a loop moved into a closure of the reviewed function keeps its row
             if row is None:
                 why = "; ".join(f"next() on {c} iterator `{norm(t)[:70]}`" for _, c, t in nc if c != "finite") or "no iterator drives it"
                 chk.fail(rule, lkey, where, f"unreviewed loop without a recognised progress construct in {k}: {why}",
                          {"blocks": scc})
                 continue
-            used_rows.add(k)
+            used_rows.add(k if k in rows else region)
             K = progress_blocks(F, f, scc, row["progress"]) | finiteK
             ok, cyc = acyclic_without(f, scc, K)
             if not K:
